@@ -221,9 +221,6 @@ pub fn check_schema(snap: &SchemaSnap, d: &Dump) -> Vec<Finding> {
                     if !def.multivalue && n > 1 {
                         out.push(("c15/single-valued-attribute-has-many".into(), format!("{} {a} has {n} values", label(u, e))));
                     }
-                    if n == 0 {
-                        out.push(("c15/empty-value-set-stored".into(), format!("{} {a}", label(u, e))));
-                    }
                     if !tag_matches_syntax(&tag, &def.syntax) {
                         out.push(("c15/value-of-wrong-syntax".into(), format!("{} {a} stored as {tag} but declared {}", label(u, e), def.syntax)));
                     }
@@ -356,6 +353,36 @@ pub fn check_memberof(d: &Dump) -> Vec<Finding> {
                 _ => "c17/directmemberof-extra-and-missing",
             };
             out.push((sig.into(), format!("{} directmemberof extra={extra:?} missing={missing:?}", label(u, e))));
+        }
+    }
+    out
+}
+
+/// live groups that lie on a membership cycle (self-loop included) in this dump
+pub fn groups_on_cycles(d: &Dump) -> BTreeSet<Uuid> {
+    let mut members: BTreeMap<Uuid, BTreeSet<Uuid>> = BTreeMap::new();
+    for (u, e) in &d.entries {
+        if srv::is_live(e) && srv::dump_classes(e).iter().any(|c| c == "group") {
+            let mut m = uuids_of(e, "member");
+            m.extend(uuids_of(e, "dynmember"));
+            members.insert(*u, m);
+        }
+    }
+    let mut out = BTreeSet::new();
+    for g in members.keys() {
+        // does g reach itself
+        let mut seen = BTreeSet::new();
+        let mut stack: Vec<Uuid> = members[g].iter().cloned().collect();
+        while let Some(x) = stack.pop() {
+            if x == *g {
+                out.insert(*g);
+                break;
+            }
+            if seen.insert(x) {
+                if let Some(m) = members.get(&x) {
+                    stack.extend(m.iter().cloned());
+                }
+            }
         }
     }
     out
